@@ -285,6 +285,20 @@ where
         .collect()
 }
 
+/// Returns the height `h` of a Merkle cap with `2^h` entries.
+///
+/// The cap is part of the proof, so an empty cap or one whose size is not a power of two is
+/// reported as an error rather than a panic.
+fn merkle_cap_height(num_entries: usize) -> Result<usize, CircuitBuilderError> {
+    if !num_entries.is_power_of_two() {
+        return Err(CircuitBuilderError::Poseidon2ConfigMismatch {
+            expected: "a Merkle cap with a non-zero power-of-two number of entries".into(),
+            got: format!("{num_entries} entries"),
+        });
+    }
+    Ok(log2_strict_usize(num_entries))
+}
+
 /// Recursive version of `MerkleTreeMmcs::verify_batch`. Adds a circuit that verifies an opened
 /// batch of rows with respect to a given commitment (Merkle cap).
 ///
@@ -346,17 +360,8 @@ where
         });
     }
 
-    assert!(
-        !commitment_cap.is_empty(),
-        "commitment cap must have at least one entry"
-    );
-
     // Derive cap_height from commitment size: cap has 2^cap_height entries
-    let cap_height = if commitment_cap.len() == 1 {
-        0
-    } else {
-        log2_strict_usize(commitment_cap.len())
-    };
+    let cap_height = merkle_cap_height(commitment_cap.len())?;
 
     let max_height_log = index_bits.len();
     let path_depth = max_height_log - cap_height;
@@ -461,16 +466,7 @@ where
         });
     }
 
-    assert!(
-        !commitment_cap.is_empty(),
-        "commitment cap must have at least one entry"
-    );
-
-    let cap_height = if commitment_cap.len() == 1 {
-        0
-    } else {
-        log2_strict_usize(commitment_cap.len())
-    };
+    let cap_height = merkle_cap_height(commitment_cap.len())?;
 
     let max_height_log = index_bits.len();
     let path_depth = max_height_log - cap_height;
@@ -1095,10 +1091,8 @@ fn arity4_prepare<EF: Field>(
         });
     }
 
-    assert!(
-        !commitment_cap.is_empty(),
-        "commitment cap must have at least one entry"
-    );
+    let num_roots = commitment_cap.len();
+    let cap_log2 = merkle_cap_height(num_roots)?;
 
     let mut heights_tallest_first = dimensions
         .iter()
@@ -1128,13 +1122,6 @@ fn arity4_prepare<EF: Field>(
             got: "empty batch".into(),
         });
     }
-
-    let num_roots = commitment_cap.len();
-    let cap_log2 = if num_roots == 1 {
-        0
-    } else {
-        log2_strict_usize(num_roots)
-    };
 
     let leaf_rows = arity4_leaf_rows(dimensions, max_height);
     let schedule = arity4_path_schedule(dimensions, max_height, num_roots);
